@@ -224,9 +224,11 @@ def instr(res, idx, tier):
             # A/I/F background: both all-masked and all-clear for the instructions that write the masks (CPS, MSR),
             # alternating for the others
             touches_masks = row.cls.startswith(("Cps", "Msr"))
-            for (cname, cfg), mode, ns, v, it, aifsel in itertools.product(CONFIGS[1:3], MODES, (0, 1), V,
-                                                                          (0,) if row.iset == A32 else (0, 0xE8),
-                                                                          (0, 1) if touches_masks else (None,)):
+            # trap / disable controls of SMC, WFE, WFI: HCR.{TSC,TWE,TWI} and SCR.SCD, both polarities
+            trappable = row.cls.startswith(("Smc", "Wfe", "Wfi"))
+            for (cname, cfg), mode, ns, v, it, aifsel, trap in itertools.product(
+                    CONFIGS[1:3], MODES, (0, 1), V, (0,) if row.iset == A32 else (0, 0xE8),
+                    (0, 1) if touches_masks else (None,), (0, 1, 2) if trappable else (0,)):
                 full = dict(machine.base_config())
                 full.update(cfg)
                 if not valid_state(full, mode, ns):
@@ -242,8 +244,14 @@ def instr(res, idx, tier):
                 regvals[14] = 0x00010A01 if v & 1 else 0x00010A00
                 extra = {"scr": (ns | 0x30) if (res.cases & 1) else ns, rstate_spsr(mode) or "spsr_svc": v,
                          "elr_hyp": 0x00010B00, "event_register": bool(res.cases & 2)}
+                if trap == 1 and full.get("have_virt_ext"):
+                    extra["hcr"] = (1 << 19) | (1 << 14) | (1 << 13)
+                    if row.cls.startswith("Wf"):
+                        extra["event_register"] = False
+                elif trap == 2:
+                    extra["scr"] |= 1 << 7
                 res.cases += 1
-                res.add_state(hash((word, cname, mode, ns, v, it, aifsel)))
+                res.add_state(hash((word, cname, mode, ns, v, it, aifsel, trap)))
                 aif = (0b111, 0b000)[aifsel] if aifsel is not None else (0b111, 0b000, 0b101, 0b010)[(res.cases >> 7) & 3]
                 diffs, out, info = e.run(word, row, f, mode, regvals, nzcvq=(res.cases >> 2) & 0x1F, ge=0x5, it=it, extra=extra,
                                          aif=aif)
